@@ -11,7 +11,9 @@
                                 commit nobody looked at them: C08-F16)
      QPDFJob::doSplitPages      one QPDF `outpdf` per group of pages; the pages are copied into it and written by its
                                 own Writer: a warning raised while a stream is decoded for the output is recorded on
-                                outpdf, which is destroyed without being asked
+                                outpdf; "if (outpdf.anyWarnings()) m->warnings = true" after each group is written
+                                (/repo PENDING10; before that commit outpdf was destroyed without being asked:
+                                C10-F1-split-pages-late-warnings)
      QPDFJob::writeQPDF         after writing: "!pdf.getWarnings().empty()" (main input: warnings raised while opening
                                 it and while its data was read for the output), "uo.pdf->anyWarnings()" for every
                                 --overlay / --underlay file
@@ -61,6 +63,10 @@ Definition c10j_main_warnings (j : c10j_job) : bool :=
   (* decoding for the output happens inside Writer::write; with --split-pages the writer belongs to outpdf *)
   (c10j_main_late j && c10j_decode j && negb (c10j_split j)).
 
+(* doSplitPages: the warnings recorded on a per-group outpdf while it was written, folded into m->warnings *)
+Definition c10j_split_warnings (j : c10j_job) : bool :=
+  c10j_split j && c10j_main_late j && c10j_decode j.
+
 Definition c10j_uo_loop (fs : list c10j_file) (warnings : bool) : bool :=
   fold_left (fun acc f => if c10j_open_warn f then true else acc) fs warnings.
 
@@ -70,7 +76,8 @@ Definition c10j_warnings (j : c10j_job) : bool :=
   let w2 := w1 || c10j_inputs_clear (c10j_pages j) in
   (* setWriterOptions (called by writeOutfile, and once per group by doSplitPages) *)
   let w2e := if existsb c10j_open_warn (c10j_opt (c10j_enc j)) then true else w2 in
-  let w3 := if c10j_main_warnings j then true else w2e in
+  let w2s := if c10j_split_warnings j then true else w2e in
+  let w3 := if c10j_main_warnings j then true else w2s in
   c10j_uo_loop (c10j_uo j) w3.
 
 Definition c10j_exit (j : c10j_job) : nat := if c10j_warnings j && negb (c10j_wx0 j) then 3 else 0.
